@@ -56,6 +56,16 @@ def main(argv=None):
             rep.extra = dict(getattr(rep, "extra", None) or {}, sensitivity_sweep=sw)
             print(f"{prop} sensitivity sweep: {sw['mutants']} in-memory AST mutants of {sw['functions_mutated']} reached functions, "
                   f"{sw['killed']} killed, {sw['survived']} survived, {sw['analysis_error']} analysis errors")
+        if a.tier == "thorough" and not os.environ.get("VERIF_NO_SWEEP"):
+            from .metamorph import metamorph
+            mm = metamorph(prop, an, rep)
+            rep.extra = dict(getattr(rep, "extra", None) or {}, behaviour_preserving_variants=mm)
+            print(f"{prop} behaviour-preserving variants: {mm['variants']} in-memory refactorings ({', '.join(mm['operators'])}), "
+                  f"{mm['silent']} silent, {len(mm['alarms'])} alarms, {len(mm['analysis_errors'])} analysis errors")
+            for al in mm["alarms"][:5]:
+                print(f"  FALSE-ALARM-CANDIDATE {al['variant']}: {al['new_violations'][:2]}")
+            for er in mm["analysis_errors"][:5]:
+                print(f"  ANALYSIS-ERROR-ON-VARIANT {er['variant']}: {er['error']}")
         return finish(rep, level=getattr(mod, "LEVEL", "other"), explanation=mod.EXPLANATION,
                       rule_text=getattr(mod, "RULE_TEXT", ""), trusted=getattr(mod, "TRUSTED", TRUSTED),
                       assumptions=getattr(mod, "ASSUMPTIONS", ASSUMPTIONS), extra=getattr(rep, "extra", None))
